@@ -39,9 +39,10 @@ def scale(tier, quick, thorough):
     return thorough if tier == "thorough" else quick
 
 
-from gens import pure, wire, mtu, txring  # noqa: E402,F401  (registers generators / oracles)
+from gens import pure, wire, mtu, txring, rx  # noqa: E402,F401  (registers generators / oracles)
 
 pure.register(sys.modules[__name__])
 wire.register(sys.modules[__name__])
 mtu.register(sys.modules[__name__])
 txring.register(sys.modules[__name__])
+rx.register(sys.modules[__name__])
